@@ -175,6 +175,68 @@ type Bounds struct {
 	Opaque map[ssa.Value]string
 	stable [][]ssa.Value
 	summ   map[*ssa.Function]map[int]int64 // predicate summaries, private to this analysis (no global state)
+	// Extra, when set, adds facts that hold by a checked class invariant or callee summary (the
+	// rule that sets it is responsible for checking them). It runs after the definitional facts
+	// and before branch conditions and refinement.
+	Extra func(b *Bounds, z *Zone, vals []ssa.Value, before ssa.Instruction)
+}
+
+// Exported handles for fact providers.
+var Zero = zero
+
+// ValTerm is the term of an integer SSA value.
+func ValTerm(v ssa.Value) Term { return Term{V: v} }
+
+// LenTerm is the term (and constant offset) of len(v) for a slice, string or array value.
+func LenTerm(v ssa.Value) (Term, int64, bool) { return lenTerm(v) }
+
+// AddLE adds the fact x - y <= c.
+func (z *Zone) AddLE(x, y Term, c int64) { z.addLE(x, y, c) }
+
+// DomCond is a branch condition that holds at an instruction (its edge dominates it).
+type DomCond struct {
+	Cond  ssa.Value
+	Truth bool
+}
+
+// DominatingConds lists the branch conditions whose edge dominates block blk.
+func DominatingConds(blk *ssa.BasicBlock) []DomCond {
+	var out []DomCond
+	for _, bb := range blk.Parent().Blocks {
+		ifi, ok := bb.Instrs[len(bb.Instrs)-1].(*ssa.If)
+		if !ok {
+			continue
+		}
+		for k := 0; k < 2; k++ {
+			tgt := bb.Succs[k]
+			if len(tgt.Preds) != 1 || bb.Succs[0] == bb.Succs[1] {
+				continue
+			}
+			if tgt != blk && !tgt.Dominates(blk) {
+				continue
+			}
+			out = append(out, DomCond{ifi.Cond, k == 0})
+		}
+	}
+	return out
+}
+
+// ProveIndexAt decides 0 <= idx < len(x) just before instruction in.
+func (b *Bounds) ProveIndexAt(in ssa.Instruction, x, idx ssa.Value) BoundsSite {
+	return b.proveIndex(in, x, idx)
+}
+
+// ProveLenGEAt decides len(v) >= k just before instruction in.
+func (b *Bounds) ProveLenGEAt(in ssa.Instruction, v ssa.Value, k int64) bool {
+	z := b.zoneBefore(in.Block(), in)
+	if z.infeasible() {
+		return true
+	}
+	lt, off, ok := lenTerm(v)
+	if !ok {
+		return false
+	}
+	return z.le(zero, lt, off-k)
 }
 
 func NewBounds(fn *ssa.Function, intBits int) *Bounds {
@@ -329,6 +391,13 @@ func (b *Bounds) zoneBefore(blk *ssa.BasicBlock, before ssa.Instruction) *Zone {
 					if lt, off, ok := lenTerm(t.Call.Args[0]); ok {
 						z.addEq(Term{V: t}, lt, off)
 					}
+				case "append":
+					// the result is at least as long as the slice appended to
+					if lt, off, ok := lenTerm(t); ok && lt != zero && len(t.Call.Args) > 0 {
+						if lx, offx, ok := lenTerm(t.Call.Args[0]); ok {
+							z.addLE(lx, lt, off-offx)
+						}
+					}
 				case "copy":
 					z.addLE(zero, Term{V: t}, 0)
 					for _, a := range t.Call.Args {
@@ -398,6 +467,9 @@ func (b *Bounds) zoneBefore(blk *ssa.BasicBlock, before ssa.Instruction) *Zone {
 			}
 		}
 	}
+	if b.Extra != nil {
+		b.Extra(b, z, vals, before)
+	}
 	// 2. dominating branch conditions
 	for _, bb := range fn.Blocks {
 		ifi, ok := bb.Instrs[len(bb.Instrs)-1].(*ssa.If)
@@ -431,6 +503,29 @@ func (b *Bounds) zoneBefore(blk *ssa.BasicBlock, before ssa.Instruction) *Zone {
 			case *ssa.Phi:
 				if b.phiFacts(z, t) {
 					changed = true
+				}
+			case *ssa.Call:
+				// append(x, ys...): the result is at least len(x) plus the least length of ys
+				if bi, ok := t.Call.Value.(*ssa.Builtin); ok && bi.Name() == "append" && len(t.Call.Args) == 2 {
+					lr, offr, ok1 := lenTerm(t)
+					lx, offx, ok2 := lenTerm(t.Call.Args[0])
+					ly, offy, ok3 := lenTerm(t.Call.Args[1])
+					if ok1 && ok2 && ok3 && lr != zero {
+						ylo := offy
+						if ly != zero {
+							lo, _ := z.bounds(ly)
+							if lo <= -inf {
+								lo = 0
+							}
+							ylo = satAdd(lo, offy)
+						}
+						if ylo > 0 {
+							// (lx+offx) + ylo <= (lr+offr)  =>  lx - lr <= offr - offx - ylo
+							if z.addLE(lx, lr, offr-offx-ylo) {
+								changed = true
+							}
+						}
+					}
 				}
 			}
 		}
